@@ -11,23 +11,26 @@
 #define SC_C (*cosx)
 #define SC_R2 0x1.6a09e667f3bcdp-1                        /* sqrt(1/2) correctly rounded */
 #define SC_R3 0x1.bb67ae8584caap-1                        /* sqrt(3)/2 correctly rounded */
-/*@ clause frame src=property props=C14 */
+/*@ clause frame src=property props=C14 only=enforce */
 __CPROVER_assigns(*sinx, *cosx, vm_last_k, cap_d)
+/*@ clause frame.caller src=property only=replace */
+/* the ghost variables of the model / captures are not part of what a caller sees */
+__CPROVER_assigns(*sinx, *cosx)
 /*@ clause post.nan src=property props=C13,C16 */
 __CPROVER_ensures((isnan(x) || isinf(x)) ? (isnan(SC_S) && isnan(SC_C)) : (!isnan(SC_S) && !isnan(SC_C)))
 /*@ clause post.range src=property props=C16 */
 __CPROVER_ensures(isnan(x) || isinf(x) || (-1.0 <= SC_S && SC_S <= 1.0 && -1.0 <= SC_C && SC_C <= 1.0))
-/*@ clause post.multiples_of_90 src=property props=C16 */
+/*@ clause post.multiples_of_90 src=property props=C16 only=enforce */
 __CPROVER_ensures(!SC_EXACT || SC_D != 0 ||
    (SC_K == 0 ? (SC_S == 0 && SC_C == 1) : SC_K == 1 ? (SC_S == 1 && SC_C == 0) : SC_K == 2 ? (SC_S == 0 && SC_C == -1) : (SC_S == -1 && SC_C == 0)))
 /*@ clause post.zero_signs src=standard props=C16 */
 __CPROVER_ensures(isnan(x) || isinf(x) || ((SC_C != 0 || !signbit(SC_C)) && (SC_S != 0 || signbit(SC_S) == signbit(x))))
-/*@ clause post.multiples_of_45 src=property props=C16 */
+/*@ clause post.multiples_of_45 src=property props=C16 only=enforce */
 __CPROVER_ensures(!SC_EXACT || fabs(SC_D) != 45.0 || (fabs(SC_S) == SC_R2 && fabs(SC_C) == SC_R2))
-/*@ clause post.multiples_of_30 src=property props=C16 */
+/*@ clause post.multiples_of_30 src=property props=C16 only=enforce */
 __CPROVER_ensures(!SC_EXACT || fabs(SC_D) != 30.0 ||
    ((SC_K & 1) == 0 ? (fabs(SC_S) == 0.5 && fabs(SC_C) == SC_R3) : (fabs(SC_S) == SC_R3 && fabs(SC_C) == 0.5)))
-/*@ clause post.quadrant_signs src=property props=C16 */
+/*@ clause post.quadrant_signs src=property props=C16 only=enforce */
 /* the signs are those of the quadrant of x (the minor component may underflow to zero for subnormal reduced arguments) */
 __CPROVER_ensures(!SC_EXACT || SC_D == 0 ||
    (SC_K == 0 ? (SC_C > 0 && (SC_D > 0 ? SC_S >= 0 : SC_S <= 0)) : SC_K == 1 ? (SC_S > 0 && (SC_D > 0 ? SC_C <= 0 : SC_C >= 0)) :
